@@ -809,7 +809,14 @@ func runServerScenario(t *testing.T, idx int, kind string, next func(r *svRig, s
 			err := rig.srv.Serve(ctx, ep)
 			rig.mu.Lock()
 			rig.serveRet, rig.serveErr = true, err
-			rig.events = append(rig.events, "SvServeRet "+svServeErrClass(err))
+			cls := svServeErrClass(err)
+			if cls == "SNil" || cls == "SUnknown" {
+				// an error the model's Serve cannot return: keep the term well-typed and add an event no model state
+				// produces, so that the case can never agree with the model (the property predicates judge it first)
+				rig.events = append(rig.events, "SvOp 999999 OOk")
+				cls = "SCtx"
+			}
+			rig.events = append(rig.events, "SvServeRet "+cls)
 			rig.mu.Unlock()
 		}()
 		synctest.Wait()
